@@ -19,3 +19,11 @@ Theorem spec_rounding_is_IEEE_nearest_even : forall num den, 0 < num -> 0 < den 
   let q := if 0 <=? s then rne_div num (den * 2 ^ s) else rne_div (num * 2 ^ (- s)) den in
   round radix2 (FLT_exp (-1074) 53) ZnearestE (IZR num / IZR den) = (IZR q * bpow radix2 s)%R.
 Proof. exact round_rat_quotient_is_flocq. Qed.
+(* both ranges: the quantity round_rat 53 1023 computes before packing bits (the subnormal quotient in units of
+   2^-1074, the normal one scaled by its binade) is Flocq's rounding of the exact rational, for every positive rational *)
+Theorem spec_rounding_is_IEEE_everywhere : forall num den, 0 < num -> 0 < den ->
+  round radix2 (FLT_exp (-1074) 53) ZnearestE (IZR num / IZR den) =
+    if binade num den <? -1022 then (IZR (rne_div (num * 2 ^ (53 - 1 - (1 - 1023))) den) * bpow radix2 (-1074))%R
+    else let s := binade num den - 52 in
+         (IZR (if 0 <=? s then rne_div num (den * 2 ^ s) else rne_div (num * 2 ^ (- s)) den) * bpow radix2 s)%R.
+Proof. exact round_rat_is_flocq. Qed.
